@@ -473,6 +473,10 @@ func genPassHalf(r *rng, names []string, hop [][2]string, maxBody int) passHalf 
 	return h
 }
 
+// backend status codes of the pass-through scenarios (a body is scripted for all of them except 204 and 304)
+var passStatuses = []int{200, 200, 200, 201, 202, 203, 204, 205, 205, 206, 207, 208, 226, 299, 300, 301, 302, 303, 304, 305, 307, 308, 399, 400, 401, 403, 404,
+	405, 409, 410, 416, 418, 421, 425, 429, 451, 499, 500, 501, 502, 503, 504, 511, 599, 600, 799, 999}
+
 func init() {
 	registerOp("pass", runPass)
 	register("pass", "C08: request / response pass-through through the real proxy stack (both protocols, bodies up to MiBs in pieces, trailers, concurrency)", func(c *ctx) {
@@ -508,6 +512,12 @@ func init() {
 				maxBody = 5 << 20
 			}
 			soak := i%40 == 7
+			sweep := i%40 == 3
+			if sweep {
+				proto, n, conc = []string{"h2", "h1"}[(i/40)%2], len(passStatuses), false
+				maxBody = 20000
+				c.tag("status-sweep")
+			}
 			if soak {
 				proto, n, conc = "h2", 70+r.intn(20), r.chance(1, 3)
 				c.tag("soak")
@@ -528,6 +538,9 @@ func init() {
 						[2]string{"Connection", "keep-alive, X-Drop-2"}, [2]string{"X-Drop-2", "2"}, [2]string{"Proxy-Connection", "keep-alive"})
 				}
 				rq := genPassHalf(r.fork(), passReqNames, hop, maxBody)
+				if sweep {
+					method = []string{"GET", "POST"}[r.intn(2)]
+				}
 				if soak {
 					method = "POST"
 					rq.bodyLen, rq.pieces, rq.trailers = 16384+r.intn(20000), r.intn(4), nil
@@ -543,7 +556,14 @@ func init() {
 				if soak {
 					rs.bodyLen, rs.trailers = r.intn(300), nil
 				}
-				status := []int{200, 200, 200, 201, 202, 204, 206, 226, 299, 301, 302, 304, 400, 401, 403, 404, 409, 418, 451, 499, 500, 502, 503, 511, 599, 600, 799, 999}[r.intn(28)]
+				status := passStatuses[r.intn(len(passStatuses))]
+				if sweep {
+					// every status code of the list once, each with a response body where the protocol allows one
+					status = passStatuses[k]
+					if rs.bodyLen == 0 {
+						rs.bodyLen = 1 + r.intn(3000)
+					}
+				}
 				if status == 204 || status == 304 || method == "HEAD" {
 					rs.bodyLen = 0
 					rs.trailers = nil
